@@ -56,6 +56,8 @@ func (p txProg) String() string {
 			s = append(s, "d("+o.K+")")
 		case "Q":
 			s = append(s, "quiesce")
+		case "L":
+			s = append(s, "w("+o.K+"=<oversize>)")
 		}
 	}
 	kind := "ro"
@@ -161,12 +163,15 @@ func (h *history) String() string {
 	return strings.Join(s, "\n      ")
 }
 
+var oversizeValue = []byte(strings.Repeat("L", 70000))
+
 // liveTxn is a transaction whose operations have run and whose Commit/Discard is still to come.
 type liveTxn struct {
-	tx  *originium.Txn
-	rec *txnRec
-	p   txProg
-	h   *history
+	tx   *originium.Txn
+	rec  *txnRec
+	p    txProg
+	h    *history
+	tail []txOp
 }
 
 // startTxn runs Begin and the operations of a program and records them.
@@ -178,35 +183,59 @@ func startTxn(db *originium.DB, h *history, name string, p txProg, yield func())
 	tx := db.Begin(p.Update)
 	rec.BeginRet = h.tick()
 	rec.ReadTs = tx.VerifReadTs()
+	l := &liveTxn{tx: tx, rec: rec, p: p, h: h}
 	for _, o := range p.Ops {
 		if yield != nil {
 			yield()
 		}
-		if o.Op == "Q" {
-			// steering only: wait until every other goroutine is finished or blocked (writers done, flusher idle)
-			vsched.WaitQuiescent()
-			continue
-		}
-		oo := obsOp{Op: o.Op, K: o.K, V: o.V}
-		switch o.Op {
-		case "G":
-			v, ok := tx.Get(o.K)
-			oo.V, oo.Found = string(v), ok
-		case "S":
-			if err := tx.Set(o.K, []byte(o.V)); err != nil {
-				oo.Err = err.Error()
-			}
-		case "D":
-			if err := tx.Delete(o.K); err != nil {
-				oo.Err = err.Error()
-			}
-		}
-		rec.Ops = append(rec.Ops, oo)
+		l.do(o)
 	}
 	if yield != nil {
 		yield()
 	}
-	return &liveTxn{tx: tx, rec: rec, p: p, h: h}
+	return l
+}
+
+// more performs further operations of an open transaction.
+func (l *liveTxn) more(ops []txOp) {
+	for _, o := range ops {
+		l.do(o)
+	}
+}
+
+// do performs one operation and records it.
+func (l *liveTxn) do(o txOp) {
+	tx, rec := l.tx, l.rec
+	if o.Op == "Q" {
+		// steering only: wait until every other goroutine is finished or blocked (writers done, flusher idle)
+		vsched.WaitQuiescent()
+		return
+	}
+	oo := obsOp{Op: o.Op, K: o.K, V: o.V}
+	switch o.Op {
+	case "G":
+		v, ok := tx.Get(o.K)
+		oo.V, oo.Found = string(v), ok
+	case "S":
+		if err := tx.Set(o.K, []byte(o.V)); err != nil {
+			oo.Err = err.Error()
+		}
+	case "L":
+		// a Set that the engine must refuse (value above the 16-bit length limit): recorded as a failed Set,
+		// it must have no effect at all - not on reads and not on anybody's conflict check
+		oo.Op = "S"
+		oo.V = "<70000 bytes>"
+		if err := tx.Set(o.K, oversizeValue); err != nil {
+			oo.Err = err.Error()
+		} else {
+			oo.V = string(oversizeValue)
+		}
+	case "D":
+		if err := tx.Delete(o.K); err != nil {
+			oo.Err = err.Error()
+		}
+	}
+	rec.Ops = append(rec.Ops, oo)
 }
 
 // finish runs the final Commit or Discard.
